@@ -17,6 +17,7 @@ import errno
 import io
 import os
 import py_compile
+import re
 import shutil
 import sys
 import tempfile
@@ -51,6 +52,7 @@ class real:
 _active: "World | None" = None
 _installed = False
 _NO = object()
+_HEX32 = re.compile(r"[0-9a-f]{32}")
 
 FAULT_KINDS = ("crash", "enospc", "eio", "eacces", "emfile", "enoent")
 
@@ -396,7 +398,8 @@ class World:
         self.total_events += 1
         self.event_kinds[kind] = self.event_kinds.get(kind, 0) + 1
         self.trace.append((proc.name, kind))
-        label = f"fs:{kind}:{self.rel(path)}"
+        # (digests of file templates embed the sandbox path: normalise)
+        label = f"fs:{kind}:{_HEX32.sub('H', self.rel(path))}"
         sched = self.sched
         if sched is not None and sched.current() is not None and \
                 getattr(self._tls, "override", _NO) is _NO:
